@@ -14,7 +14,6 @@ Proof.
   induction f1 as [|f1 IH]; intros f2 buf H1 H2; [lia|]. destruct f2 as [|f2]; [lia|].
   cbn [drain]. destruct (length buf <? 4)%nat eqn:E4; [reflexivity|]. apply Nat.ltb_ge in E4.
   destruct (N.of_nat (length buf) <? be_val (firstn 4 buf) 0 + 4) eqn:El; [reflexivity|]. apply N.ltb_ge in El.
-  destruct (hframe_decode _) as [[h d]|]; [|reflexivity].
   rewrite (IH f2); [reflexivity| |]; rewrite skipn_length; lia.
 Qed.
 
@@ -34,11 +33,8 @@ Proof.
   set (n := N.to_nat (be_val (firstn 4 a) 0 + 4)) in *.
   assert (Hn : (n <= length a)%nat) by (unfold n; lia).
   (* the first step on a ++ s is the same step *)
-  assert (Hstep : drainF (a ++ s) =
-    match hframe_decode (firstn n a) with
-    | Ok (h, d) => let '(b, blk, out, ab) := drain (length (a ++ s)) (skipn n a ++ s) in (b, blk, Delivered h d :: out, ab)
-    | Err _ => (skipn n a ++ s, false, [Dropped], true)
-    end).
+  set (o := match hframe_decode (firstn n a) with Ok (h, d) => Delivered h d | Err _ => Dropped end).
+  assert (Hstep : drainF (a ++ s) = let '(b, blk, out, ab) := drain (length (a ++ s)) (skipn n a ++ s) in (b, blk, o :: out, ab)).
   { unfold drainF. cbn [drain].
     assert ((length (a ++ s) <? 4)%nat = false) as -> by (apply Nat.ltb_ge; rewrite app_length; lia).
     assert (F4 : firstn 4 (a ++ s) = firstn 4 a) by (rewrite firstn_app; replace (4 - length a)%nat with O by lia; rewrite firstn_O, app_nil_r; reflexivity).
@@ -46,16 +42,14 @@ Proof.
     fold n. assert (Fn : firstn n (a ++ s) = firstn n a) by (rewrite firstn_app; replace (n - length a)%nat with O by lia; rewrite firstn_O, app_nil_r; reflexivity).
     assert (Sn : skipn n (a ++ s) = skipn n a ++ s) by (rewrite skipn_app; replace (n - length a)%nat with O by lia; reflexivity).
     rewrite Fn, Sn. reflexivity. }
-  destruct (hframe_decode (firstn n a)) as [[h d]|e].
-  - assert (Hsk : (length (skipn n a) < f)%nat) by (rewrite skipn_length; unfold n; lia).
-    specialize (IH (skipn n a) s Hsk).
-    destruct (drain f (skipn n a)) as [[[a' blk] out] ab].
-    assert (Hfu : drain (length (a ++ s)) (skipn n a ++ s) = drainF (skipn n a ++ s)).
-    { unfold drainF. apply drain_fuel; [|lia]. rewrite !app_length, skipn_length. unfold n. lia. }
-    rewrite Hfu in Hstep. destruct ab.
-    + rewrite IH in Hstep. exact Hstep.
-    + destruct (drainF (a' ++ s)) as [[[b blk2] out2] ab2]. rewrite IH in Hstep. exact Hstep.
-  - exact Hstep.
+  assert (Hsk : (length (skipn n a) < f)%nat) by (rewrite skipn_length; unfold n; lia).
+  specialize (IH (skipn n a) s Hsk).
+  destruct (drain f (skipn n a)) as [[[a' blk] out] ab].
+  assert (Hfu : drain (length (a ++ s)) (skipn n a ++ s) = drainF (skipn n a ++ s)).
+  { unfold drainF. apply drain_fuel; [|lia]. rewrite !app_length, skipn_length. unfold n. lia. }
+  rewrite Hfu in Hstep. destruct ab.
+  + rewrite IH in Hstep. exact Hstep.
+  + destruct (drainF (a' ++ s)) as [[[b blk2] out2] ab2]. rewrite IH in Hstep. exact Hstep.
 Qed.
 
 (* once drained, draining again finds nothing *)
@@ -68,7 +62,6 @@ Proof.
   destruct (N.of_nat (length a) <? be_val (firstn 4 a) 0 + 4) eqn:El.
   { intros _. unfold drainF. cbn [drain]. rewrite E4, El. reflexivity. }
   apply N.ltb_ge in El.
-  destruct (hframe_decode _) as [[h d]|e]; [|discriminate].
   assert (Hsk : (length (skipn (N.to_nat (be_val (firstn 4 a) 0 + 4)) a) < f)%nat) by (rewrite skipn_length; lia).
   specialize (IH _ Hsk). destruct (drain f _) as [[[a' blk] out] ab]. exact IH.
 Qed.
@@ -139,4 +132,22 @@ Proof.
   intros ms segs Hms Hcat. apply (rx_run_stream segs rx_init [] false).
   - reflexivity.
   - cbn [rx_init rx_buf app]. rewrite Hcat. apply drain_frames. exact Hms.
+Qed.
+
+(* a frame that is not an HSMS message (its length field is fine, its content cannot be decoded) is dropped - and the frames that follow
+   it in the stream are delivered all the same, at once (D68) *)
+Theorem bad_frame_does_not_stall : forall bad ms e,
+  (4 <= length bad)%nat -> be_val (firstn 4 bad) 0 + 4 = N.of_nat (length bad) -> hframe_decode bad = Err e -> Forall frame_ok ms ->
+  drainF (bad ++ List.concat (map enc_frame ms)) = ([], false, Dropped :: map (fun m => Delivered (fst m) (snd m)) ms, false).
+Proof.
+  intros bad ms e L4 Llen Ldec Hms. set (rest := List.concat (map enc_frame ms)).
+  unfold drainF. cbn [drain].
+  assert ((length (bad ++ rest) <? 4)%nat = false) as -> by (apply Nat.ltb_ge; rewrite app_length; lia).
+  assert (F4 : firstn 4 (bad ++ rest) = firstn 4 bad) by (rewrite firstn_app; replace (4 - length bad)%nat with O by lia; rewrite firstn_O, app_nil_r; reflexivity).
+  rewrite F4, Llen.
+  assert (N.of_nat (length (bad ++ rest)) <? N.of_nat (length bad) = false) as -> by (apply N.ltb_ge; rewrite app_length; lia).
+  rewrite Nat2N.id, firstn_len_app, skipn_len_app, Ldec.
+  assert (Hfu : drain (length (bad ++ rest)) rest = drainF rest).
+  { unfold drainF. apply drain_fuel; [rewrite app_length|]; lia. }
+  rewrite Hfu. unfold rest. rewrite (drain_frames ms Hms). reflexivity.
 Qed.
